@@ -663,12 +663,10 @@ pub fn replay(doc: &Value) -> i32 {
     match rx.recv_timeout(std::time::Duration::from_millis(HANG_LIMIT_MS)) {
         Err(_) => {
             println!("reproduced: query did not terminate within {} ms", HANG_LIMIT_MS);
-            println!("VIOLATION property=C12 replay=(replayed)");
             1
         }
         Ok(Some((class, msg, q))) => {
             println!("reproduced: class={} :: {} :: query={:?}", class, msg, q.map(|q| q.describe()));
-            println!("VIOLATION property=C12 replay=(replayed)");
             1
         }
         Ok(None) => {
